@@ -579,6 +579,24 @@ var DeepFamilies = []DeepFamily{
 		return []byte(rep("|a", n) + "|\n" + rep("|:-:", n) + "|\n" + rep("|b", n+1) + "|\n|c|")
 	}},
 	{"heading-attributes", func(n int) []byte { return []byte("# h {" + rep("k=v ", n) + "#i}") }},
+	// a run of n openers that stay open, then a tail in which links, images, references and emphasis open and close normally:
+	// whatever the parser keeps per open bracket / delimiter (a stack, a bottom marker, a depth counter with a limit) is n deep
+	// when the ordinary constructs of the tail are resolved
+	{"open-brackets-then-links", func(n int) []byte { return []byte(rep("[", capN(n, 3000)) + " *a [*b*](u) [*c [*d*](v) *e") }},
+	{"open-brackets-then-links-next-line", func(n int) []byte {
+		return []byte(rep("[", capN(n, 3000)) + "\n*a [*b*](u) [*c [*d*](v) *e\n_f [g][] _h\n\n[g]: /u")
+	}},
+	{"open-images-then-links", func(n int) []byte { return []byte(rep("![", capN(n, 3000)) + " *a ![*b*](u) [*c ![d](v) *e ~~f [g](h) ~~i") }},
+	{"open-emphasis-then-links", func(n int) []byte { return []byte(rep("*a ", capN(n, 3000)) + "[*b](u) *c* [d][] _e [f](g)_ **h\n\n[d]: /u") }},
+	{"open-brackets-then-references", func(n int) []byte {
+		return []byte(rep("[", capN(n, 3000)) + "x][r] [r][] ![r] [*e*][R] ] ] *y\n\n[r]: /u 't'")
+	}},
+	{"brackets-and-emphasis-interleaved", func(n int) []byte {
+		n = capN(n, 1500)
+		return []byte(rep("[*", n) + "a" + rep("*](u) ", 3) + "[b](v) *c [d](w) *e")
+	}},
+	{"open-brackets-each-with-text", func(n int) []byte { return []byte(rep("[a *b ", capN(n, 2000)) + "[c](u) *d* [e](v) f* g") }},
+	{"open-parens-in-destination-then-links", func(n int) []byte { return []byte("[a](" + rep("(", capN(n, 3000)) + " b *c [d](e) *f [g](h) i") }},
 	{"emphasis-run-length", func(n int) []byte {
 		return []byte(rep("*", n) + "a" + rep("*", n) + " " + rep("_", n) + "b" + rep("_", n))
 	}},
